@@ -32,6 +32,7 @@ import (
 
 	"github.com/aergoio/aergo/v2/chain"
 	"github.com/aergoio/aergo/v2/config"
+	"github.com/aergoio/aergo/v2/contract"
 	"github.com/aergoio/aergo/v2/internal/enc/gob"
 	"github.com/aergoio/aergo/v2/p2p/p2pkey"
 	"github.com/aergoio/aergo/v2/types"
@@ -112,7 +113,10 @@ func firstCfg(maxNo int) []uint64 {
 	n := len(hfFields())
 	hs := make([]uint64, n)
 	h := uint64(rng.Intn(4))
-	if rng.Chance(1, 6) {
+	if rng.Chance(1, 2) {
+		h = uint64(1 + rng.Intn(maxNo)) // the V2 fork (receipt format switch) inside the chain that is going to be built
+	}
+	if rng.Chance(1, 8) {
 		h = 0
 	}
 	for i := range hs {
@@ -207,6 +211,22 @@ func scripted(root string) {
 	}
 }
 
+// randScript: a script for the stub VM (overlay/stub/vmstub.go): return value, events, a runtime error
+func randScript(call bool) string {
+	sc := map[string]interface{}{"fee": "0"}
+	if rng.Chance(1, 2) {
+		sc["ret"] = fmt.Sprintf("r%d", rng.Intn(1000))
+	}
+	if rng.Chance(1, 2) {
+		sc["events"] = 1 + rng.Intn(3)
+	}
+	if call && rng.Chance(1, 4) {
+		sc["err"] = "vm"
+	}
+	b, _ := json.Marshal(sc)
+	return string(b)
+}
+
 func cloneReceiptList(rs []*types.Receipt) []*types.Receipt {
 	var out []*types.Receipt
 	for _, r := range rs {
@@ -265,17 +285,34 @@ func buildBlock(n *cnode, hs []uint64, no uint64) (built, bool) {
 	parent := n.best()
 	parentHdr := encHeader(parent)
 	parentID := append([]byte(nil), parent.BlockHash()...)
+	parentDigest := headerDigest(parent)
 	parentCid := append([]byte(nil), parent.GetHeader().GetChainID()...)
-	ntx := rng.Intn(4)
+	ntx := rng.Intn(5)
 	if rng.Chance(1, 5) {
 		ntx = 0
 	}
+	if ntx == 0 && (no == hs[0] || no+1 == hs[0] || no == hs[0]+1) {
+		ntx = 1 + rng.Intn(3) // the blocks around the receipt format switch always carry receipts
+	}
 	var txs []*types.Tx
+	queued := map[int]uint64{}
 	for k := 0; k < ntx; k++ {
 		from := rng.Intn(cAccts)
-		to := (from + 1 + rng.Intn(cAccts-1)) % cAccts
-		n.nonces[from]++
-		txs = append(txs, n.mkTx(from, n.nonces[from], n.addrs[to], big.NewInt(int64(1+rng.Intn(1000)))))
+		nonce := n.stateNonce(from) + 1 + queued[from]
+		queued[from]++
+		switch kind := rng.Intn(6); {
+		case kind <= 2 || (kind >= 4 && len(n.contracts) == 0):
+			to := (from + 1 + rng.Intn(cAccts-1)) % cAccts
+			txs = append(txs, n.mkTx(from, nonce, n.addrs[to], big.NewInt(int64(1+rng.Intn(1000))), types.TxType_TRANSFER, nil))
+			run.Count("tx-transfer")
+		case kind == 3: // deploy: receipt CREATED with a return value, possibly events (bloom filter)
+			txs = append(txs, n.mkTx(from, nonce, nil, big.NewInt(0), types.TxType_DEPLOY, []byte(randScript(false))))
+			run.Count("tx-deploy")
+		default: // call: SUCCESS with return value / events, or ERROR (vm error: the tx stays in the block)
+			c := n.contracts[rng.Intn(len(n.contracts))]
+			txs = append(txs, n.mkTx(from, nonce, c, big.NewInt(0), types.TxType_CALL, []byte(randScript(true))))
+			run.Count("tx-call")
+		}
 	}
 	blk, bs, err := n.produce(parent, txs)
 	rep := map[string]interface{}{"hardfork": hs, "block_no": no, "txs": len(txs)}
@@ -287,7 +324,7 @@ func buildBlock(n *cnode, hs []uint64, no uint64) (built, bool) {
 
 	// ---- the parent (the node's cached best block object) is what it was before the child was derived from it
 	run.Eval(fmt.Sprintf("parent-intact %d %v", no, hs), true)
-	if h := encHeader(parent); h != parentHdr || !bytes.Equal(headerDigest(parent), parentID) {
+	if h := encHeader(parent); h != parentHdr || !bytes.Equal(headerDigest(parent), parentDigest) || !bytes.Equal(parent.BlockHash(), parentID) {
 		rep2 := map[string]interface{}{"hardfork": hs, "child_no": no, "parent_chain_id_before": hx(parentCid), "parent_chain_id_after": hx(parent.GetHeader().GetChainID()),
 			"parent_id": hx(parentID), "parent_header_digest_now": hx(headerDigest(parent))}
 		run.Fail("deriving a child block changed the header of its parent (the cached best block): the parent's identifier is no longer the digest of its header", rep2)
@@ -346,6 +383,17 @@ func buildBlock(n *cnode, hs []uint64, no uint64) (built, bool) {
 		run.Fail("a block produced by the node's own block factory is refused by the chain service: "+err.Error(),
 			map[string]interface{}{"hardfork": hs, "block_no": no, "own": own, "txs": len(txs), "receipt_format_of_producer": format})
 		return built{}, false
+	}
+	for k, t := range blk.GetBody().GetTxs() {
+		if t.GetBody().GetType() == types.TxType_DEPLOY && k < len(prod) && prod[k].Status == "CREATED" {
+			n.contracts = append(n.contracts, contract.CreateContractID(t.GetBody().GetAccount(), t.GetBody().GetNonce()))
+		}
+	}
+	for _, r := range prod {
+		run.Count("receipt-status-" + r.Status)
+		if len(r.Events) > 0 {
+			run.Count("receipt-with-events")
+		}
 	}
 	if !own && format > 0 {
 		// accepted: the validator's receipts root equals the header's, i.e. it used the producer's format
@@ -504,7 +552,7 @@ func forgedTxHash(n *cnode, hs []uint64) {
 	no := parent.BlockNo() + 1
 	from := rng.Intn(cAccts)
 	to := (from + 1) % cAccts
-	tx := n.mkTx(from, n.nonces[from]+1, n.addrs[to], big.NewInt(7))
+	tx := n.mkTx(from, n.stateNonce(from)+1, n.addrs[to], big.NewInt(7), types.TxType_TRANSFER, nil)
 	blk, _, err := n.produce(parent, []*types.Tx{tx})
 	if err != nil || len(blk.GetBody().GetTxs()) != 1 {
 		run.Count("forged-tx-hash-skipped")
@@ -512,14 +560,16 @@ func forgedTxHash(n *cnode, hs []uint64) {
 	}
 	forged := wire(blk)
 	t := forged.Body.Txs[0]
-	kind := rng.Intn(3)
+	kind := rng.Intn(4)
 	switch kind {
 	case 0:
 		t.Hash[rng.Intn(32)] ^= byte(1 << uint(rng.Intn(8)))
 	case 1:
 		t.Hash = rng.Bytes(32)
-	default:
+	case 2:
 		t.Hash = t.Hash[:31]
+	default:
+		t.Hash = nil // "not filled in"
 	}
 	// direct: the transaction validator
 	verr := types.NewTransaction(t).Validate(types.NewBlockHeaderInfo(forged).ChainIdHash(), false)
